@@ -260,10 +260,14 @@ pub fn judge_one(eng: &mut Engine, st: &StepSpec, rep: &mut Report) -> Result<Op
             rep.nontrivial(o::hash_str(&format!("{fen_after}|{go}")));
         }
     }
+    *LAST_PV.lock().unwrap() = iters.last().map(|(_, i)| i.pv.clone()).unwrap_or_default();
     rep.class_n("iteration-reports", iters.len() as u64);
     rep.sample(|| json!({"position": position, "go": go, "reports": infos.iter().map(|x| x.0.clone()).take(8).collect::<Vec<_>>()}));
     Ok(Some(bestmove))
 }
+
+/// principal variation of the last iteration report of the most recent `judge_one`
+pub static LAST_PV: std::sync::Mutex<Vec<String>> = std::sync::Mutex::new(Vec::new());
 
 /// A fixed list of steps on one fresh engine process.
 pub fn run_steps(ctx: &Ctx, steps: &[StepSpec], rep: &mut Report) -> Result<(), Violation> {
@@ -306,6 +310,13 @@ pub fn flow_case(ctx: &Ctx, start: &Pos, gos: usize, depth: u64, replies: &[u16]
 }
 
 pub fn flow_case_from(ctx: &Ctx, from: &Game, gos: usize, depth: u64, replies: &[u16], rep: &mut Report) -> Result<(), Violation> {
+    flow_case_kinds(ctx, from, gos, depth, replies, &[], rep)
+}
+
+/// `kinds[k]`: 0 = go depth, 1 = game clock, 2 = movetime, 3 = nodes; bit 2 set = the opponent
+/// answers with the move the engine expected (second move of its last PV), so the next root
+/// is a position the cache already holds an entry for.
+pub fn flow_case_kinds(ctx: &Ctx, from: &Game, gos: usize, depth: u64, replies: &[u16], kinds: &[u8], rep: &mut Report) -> Result<(), Violation> {
     let mut eng = match Engine::spawn(&ctx.engine, &[]) {
         Ok(e) => e,
         Err(e) => {
@@ -323,7 +334,15 @@ pub fn flow_case_from(ctx: &Ctx, from: &Game, gos: usize, depth: u64, replies: &
         if game.cur.legal_moves().is_empty() {
             break;
         }
-        let st = StepSpec { flood: 0, position: position_command(&game.start, &game.moves_uci()), fen_after: game.cur.to_fen(), go: format!("go depth {depth}"), depth_only: Some(depth), deadline_ms: 120_000 };
+        let kind = kinds.get(k).copied().unwrap_or(0);
+        let (go, depth_only, deadline_ms) = match kind & 3 {
+            1 => ("go wtime 2000 btime 2000 winc 0 binc 0".to_string(), None, 2000 + 3000),
+            2 => ("go movetime 80".to_string(), None, 80 + 3000),
+            3 => ("go nodes 30000".to_string(), None, 120_000),
+            _ => (format!("go depth {depth}"), Some(depth), 120_000),
+        };
+        rep.class(["flow-go:depth", "flow-go:game-clock", "flow-go:movetime", "flow-go:nodes"][(kind & 3) as usize]);
+        let st = StepSpec { flood: 0, position: position_command(&game.start, &game.moves_uci()), fen_after: game.cur.to_fen(), go, depth_only, deadline_ms };
         steps.push(st.clone());
         let best = match judge_one(&mut eng, &st, rep) {
             Ok(Some(b)) => b,
@@ -346,7 +365,14 @@ pub fn flow_case_from(ctx: &Ctx, from: &Game, gos: usize, depth: u64, replies: &
         if legal.is_empty() {
             break;
         }
-        let r = legal[pick16(replies.get(k).copied().unwrap_or(0), legal.len())];
+        let expected = LAST_PV.lock().unwrap().get(1).cloned().and_then(|u| game.cur.find_legal(&u));
+        let r = match expected {
+            Some(m) if kind & 4 != 0 => {
+                rep.class("flow:reply-is-the-expected-move(next root already cached)");
+                m
+            }
+            _ => legal[pick16(replies.get(k).copied().unwrap_or(0), legal.len())],
+        };
         game.play(r);
     }
     eng.send("quit");
@@ -431,6 +457,36 @@ pub fn run(ctx: &Ctx) -> Report {
             }
         }
     }
+    // soak: ONE long-lived engine process whose cache has been filled by millions of nodes of
+    // earlier searches (quiet endgames: little quiescence, so almost every node stores an
+    // entry); every search on the way is judged, and at the end depth-limited searches of
+    // positions it has never seen must still report every depth with a legal, non-empty pv
+    if ctx.shard_index() == 2 {
+        let warm = ctx.tier.pick(26usize, 260);
+        let quiet: Vec<&String> = corp.fens.iter().zip(corp.positions.iter()).filter(|(_, p)| p.material_count() <= 9 && p.legal_moves().len() >= 4 && !p.in_check(p.wtm)).map(|(f, _)| f).collect();
+        if quiet.len() >= 12 {
+            let mut steps: Vec<StepSpec> = vec![];
+            for k in 0..warm {
+                let fen = quiet[(k * 7 + 3) % (quiet.len() - 6)];
+                steps.push(StepSpec { flood: 0, position: format!("position fen {fen}"), fen_after: fen.to_string(), go: "go nodes 1200000".into(), depth_only: None, deadline_ms: 300_000 });
+            }
+            for k in 0..6 {
+                let fen = quiet[quiet.len() - 1 - k];
+                steps.push(StepSpec { flood: 0, position: format!("position fen {fen}"), fen_after: fen.to_string(), go: "go depth 3".into(), depth_only: Some(3), deadline_ms: 120_000 });
+            }
+            rep.class_n("soak:searches-in-one-process", steps.len() as u64);
+            rep.class_n("soak:million-nodes-before-the-final-probes", (warm as u64 * 12) / 10);
+            if let Err(mut v) = run_steps(ctx, &steps, &mut rep) {
+                v.sig = format!("{}/soak", v.sig);
+                // the replay keeps only what is needed to see it again: all steps
+                if let Some(k) = ctx.is_known(&v.sig) {
+                    rep.known(&v.sig, &k.text);
+                } else {
+                    rep.violation(v);
+                }
+            }
+        }
+    }
     // roots from mate nets, either side to move (forced wins and forced losses at the root)
     let nets = ctx.tier.pick(160, 3200) / ctx.shard_count() as u32;
     run_prop(ctx, "c14-nets", nets, 20, (gen::synth_strategy(), 2u64..=5), &mut rep, |(ent, n), rep| {
@@ -444,8 +500,8 @@ pub fn run(ctx: &Ctx) -> Report {
     });
     // game flow: 6-10 consecutive depth-3/4 searches along a game in one engine process
     let flows = ctx.tier.pick(48, 800) / ctx.shard_count() as u32;
-    let fstrat = (gen::game_strategy(24), proptest::collection::vec(any::<u16>(), 10), 3u64..=4, 6usize..=10);
-    run_prop(ctx, "c14-flow", flows, 20, fstrat, &mut rep, |(g, replies, depth, gos), rep| {
+    let fstrat = (gen::game_strategy(24), proptest::collection::vec(any::<u16>(), 10), 3u64..=4, 6usize..=10, proptest::collection::vec(0u8..8, 10));
+    run_prop(ctx, "c14-flow", flows, 20, fstrat, &mut rep, |(g, replies, depth, gos, kinds), rep| {
         let mix = gen::StartMix { startpos: 4, corpus: 6, synth: 2, pattern: 3 };
         let Some((start, _)) = gen::start_pos(&g.start, &corp, mix) else { return Ok(()) };
         let mut game = Game::new(start);
@@ -468,7 +524,9 @@ pub fn run(ctx: &Ctx) -> Report {
             flow_start.play(*m);
         }
         rep.class("flow:session");
-        flow_case_from(ctx, &flow_start, *gos, *depth, replies, rep)
+        // one flow in three is depth-only throughout (its reports are counted exactly)
+        let kinds: Vec<u8> = if replies[0] % 3 == 0 { kinds.iter().map(|k| k & 4).collect() } else { kinds.clone() };
+        flow_case_kinds(ctx, &flow_start, *gos, *depth, replies, &kinds, rep)
     });
     let cases = ctx.tier.pick(1600, 24_000) / ctx.shard_count() as u32;
     run_prop(ctx, "c14", cases, 40, strategy(), &mut rep, |c, rep| {
@@ -540,5 +598,5 @@ pub fn replay(ctx: &Ctx, case: &Value) -> Report {
 }
 
 pub const LEVEL: &str = "exploration";
-pub const RULE: &str = "searches on the real engine binary: positions with >= 1 legal move (startpos / corpus / synthesised / pattern starts incl. mate nets, plus up to 40 plies of play) x 'go depth N' alone (N = 1..5; 5 only with <= 25 legal moves; plus N = 40 and 255 on a forced-mate position), roots from constructed mate nets with either side to move (forced wins and forced losses), searches during which isready is sent 2000 times (every stdout line must be an info line, readyok or the bestmove), game-flow sessions (6-10 consecutive depth-3/4 searches along a game in ONE engine process: the engine's own move, then a generated reply, so later searches meet cache entries of earlier ones) and, for the ordering and PV clauses, 'go nodes {50..100000}' / 'go movetime {5..300}'. Oracle: every stdout line starting with 'info' parses as UCI info (standard keys in any order, well-formed integers, moves in coordinate notation, score cp|mate); lines carrying 'depth' have depths exactly 1,2,...,k, each with a score and a non-empty pv that replays as legal moves from the searched position on the rules oracle; under 'go depth N' alone k == N before the bestmove. A missing bestmove is C09's subject and only counted here. Non-trivial = depth-only search with N >= 2, or a limited search with >= 2 iteration reports; distinct by (position, go command).";
+pub const RULE: &str = "searches on the real engine binary: positions with >= 1 legal move (startpos / corpus / synthesised / pattern starts incl. mate nets, plus up to 40 plies of play) x 'go depth N' alone (N = 1..5; 5 only with <= 25 legal moves; plus N = 40 and 255 on a forced-mate position), roots from constructed mate nets with either side to move (forced wins and forced losses), searches during which isready is sent 2000 times (every stdout line must be an info line, readyok or the bestmove), game-flow sessions (6-10 consecutive depth-3/4 searches along a game in ONE engine process: the engine's own move, then a generated reply, so later searches meet cache entries of earlier ones) and, for the ordering and PV clauses, 'go nodes {50..100000}' / 'go movetime {5..300}'. Oracle: every stdout line starting with 'info' parses as UCI info (standard keys in any order, well-formed integers, moves in coordinate notation, score cp|mate); lines carrying 'depth' have depths exactly 1,2,...,k, each with a score and a non-empty pv that replays as legal moves from the searched position on the rules oracle; under 'go depth N' alone k == N before the bestmove. Game flows mix the go kinds (depth / game clock 2 s a side / movetime 80 / nodes 30000), and in half of the steps the opponent's reply is the move the engine expected (second pv move), so that the next root is a position the cache already holds. A soak session (one engine process, 26 quick / 260 thorough searches of 1.2 million nodes each on quiet endgames, where nearly every node stores a cache entry, every one of them judged, then six depth-3 searches of positions not seen before) covers long-lived processes with a full cache. A missing bestmove is C09's subject and only counted here. Non-trivial = depth-only search with N >= 2, or a limited search with >= 2 iteration reports; distinct by (position, go command).";
 pub const ASSUMPTIONS: &[&str] = &["the rules oracle replays the PVs", "whether a reported mate distance is right is not asserted (the statement does not fix it)"];
